@@ -382,3 +382,59 @@ func init() {
 	mut("C16", "(benign) VerifyAppendProof compares the new root through a local", false, "",
 		Edit{m2, "\tacc.insertNode(sectorRoot, 0)\n\treturn acc.root() == newRoot", "\tacc.insertNode(sectorRoot, 0)\n\tgot := acc.root()\n\tif got != newRoot {\n\t\treturn false\n\t}\n\treturn true"})
 }
+
+func init() {
+	// ---- C17 ----
+	r4 := "rhp/v4/rhp.go"
+	mut("C17", "PayWithContract credits the host with the usage but forgets account funding", true, "pay|RenterCost:covers-fields",
+		Edit{r4, "return u.RPC.Add(u.Storage).Add(u.Egress).Add(u.Ingress).Add(u.AccountFunding)", "return u.RPC.Add(u.Storage).Add(u.Egress).Add(u.Ingress)"})
+	mut("C17", "PayWithContract does not credit the host", true, "pay|host-credited-usage",
+		Edit{r4, "\tfc.HostOutput.Value = fc.HostOutput.Value.Add(amount)\n", ""})
+	mut("C17", "PayWithContract risks the renter cost instead of the collateral", true, "pay|missed-host-risked",
+		Edit{r4, "fc.MissedHostValue = fc.MissedHostValue.Sub(collateral)", "fc.MissedHostValue = fc.MissedHostValue.Sub(amount)"})
+	mut("C17", "PayWithContract bumps the revision number before the funds check", true, "pay|error-path-clean",
+		Edit{r4, "\t// verify the contract can pay the amount before modifying\n\tif fc.RenterOutput.Value.Cmp(amount) < 0 {", "\tfc.RevisionNumber++\n\tif fc.RenterOutput.Value.Cmp(amount) < 0 {"},
+		Edit{r4, "\t}\n\tfc.RevisionNumber++\n\tfc.RenterOutput.Value = ", "\t}\n\tfc.RenterOutput.Value = "})
+	mut("C17", "PayWithContract checks collateral against the valid host output", true, "pay|guards-dominate-subtractions",
+		Edit{r4, "} else if fc.MissedHostValue.Cmp(collateral) < 0 {", "} else if fc.HostOutput.Value.Cmp(collateral) < 0 {"})
+	mut("C17", "PayWithContract lowers total collateral too", true, "pay|nothing-else-touched",
+		Edit{r4, "\tfc.MissedHostValue = fc.MissedHostValue.Sub(collateral)\n", "\tfc.MissedHostValue = fc.MissedHostValue.Sub(collateral)\n\tfc.TotalCollateral = fc.MissedHostValue\n"})
+	mut("C17", "ReviseForFundAccounts reports no usage", true, "revise|ReviseForFundAccounts:charges-reported-usage",
+		Edit{r4, "func ReviseForFundAccounts(fc types.V2FileContract, amount types.Currency) (types.V2FileContract, Usage, error) {\n\tusage := Usage{AccountFunding: amount}\n\terr := PayWithContract(&fc, usage)\n\treturn fc, usage, err", "func ReviseForFundAccounts(fc types.V2FileContract, amount types.Currency) (types.V2FileContract, Usage, error) {\n\tusage := Usage{AccountFunding: amount}\n\terr := PayWithContract(&fc, usage)\n\treturn fc, Usage{}, err"})
+	mut("C17", "RenewContract computes the final host output from the renter rollover", true, "split|RenewContract#1:host",
+		Edit{r4, "renewal.FinalHostOutput.Value = renewal.FinalHostOutput.Value.Sub(renewal.HostRollover)\n\n\t// if the remaining renter output is greater than the required allowance,\n\t// only roll over the new allowance.", "renewal.FinalHostOutput.Value = renewal.FinalHostOutput.Value.Sub(renewal.RenterRollover)\n\n\t// if the remaining renter output is greater than the required allowance,\n\t// only roll over the new allowance."})
+	mut("C17", "RenewContract rolls over the whole renter output even when the allowance is smaller", true, "cost|RenewalCost∘RenewContract#1",
+		Edit{r4, "\tif fc.RenterOutput.Value.Cmp(rp.Allowance) > 0 {\n\t\trenewal.RenterRollover = rp.Allowance\n\t} else {\n\t\trenewal.RenterRollover = fc.RenterOutput.Value\n\t}\n\trenewal.FinalRenterOutput.Value = renewal.FinalRenterOutput.Value.Sub(renewal.RenterRollover)\n\n\treturn renewal, Usage{\n\t\tRPC:              prices.ContractPrice,\n\t\tStorage:", "\trenewal.RenterRollover = fc.RenterOutput.Value.Add(renewal.NewContract.HostOutput.Value)\n\trenewal.FinalRenterOutput.Value = types.ZeroCurrency\n\n\treturn renewal, Usage{\n\t\tRPC:              prices.ContractPrice,\n\t\tStorage:"})
+	mut("C17", "RefreshContractPartialRollover inverts the host rollover comparison", true, "split|RefreshContractPartialRollover#1:subtractions",
+		Edit{r4, "\tif fc.HostOutput.Value.Cmp(hostFunds) > 0 {\n\t\trenewal.HostRollover = hostFunds", "\tif fc.HostOutput.Value.Cmp(hostFunds) < 0 {\n\t\trenewal.HostRollover = hostFunds"})
+	mut("C17", "RefreshContractFullRollover keeps the missed host value at the new collateral only while total collateral stays", true, "invariant|RefreshContractFullRollover#1",
+		Edit{r4, "renewal.NewContract.TotalCollateral = fc.TotalCollateral.Add(rp.Collateral)\n\treturn renewal, Usage{\n\t\t// Refresh usage is only the contract price since duration is not increased\n\t\tRPC:              prices.ContractPrice,\n\t\tRiskedCollateral: renewal.NewContract.RiskedCollateral(),\n\t}\n}\n", "renewal.NewContract.TotalCollateral = rp.Collateral\n\treturn renewal, Usage{\n\t\t// Refresh usage is only the contract price since duration is not increased\n\t\tRPC:              prices.ContractPrice,\n\t\tRiskedCollateral: renewal.NewContract.RiskedCollateral(),\n\t}\n}\n"})
+	mut("C17", "RefreshContractFullRollover hands the new contract to the host's renter key", true, "split|RefreshContractFullRollover#1:parties",
+		Edit{r4, "\trenewal.NewContract.HostOutput.Address = hostAddress\n\t// add the additional allowance and collateral", "\trenewal.NewContract.HostOutput.Address = hostAddress\n\trenewal.NewContract.RenterPublicKey = fc.HostPublicKey\n\t// add the additional allowance and collateral"})
+	mut("C17", "RenewalCost forgets the miner fee", true, "cost|RenewalCost:funds-exactly",
+		Edit{r4, "renter = r.NewContract.RenterOutput.Value.Add(contractCost).Add(minerFee).Add(cs.V2FileContractTax(r.NewContract)).Sub(r.RenterRollover)", "renter = r.NewContract.RenterOutput.Value.Add(contractCost).Add(cs.V2FileContractTax(r.NewContract)).Sub(r.RenterRollover)"})
+	mut("C17", "RefreshCost charges the host the contract price", true, "cost|RefreshCost:funds-exactly",
+		Edit{r4, "host = r.NewContract.HostOutput.Value.Sub(p.ContractPrice).Sub(r.HostRollover)", "host = r.NewContract.HostOutput.Value.Sub(r.HostRollover)"})
+	mut("C17", "ContractCost taxes only the renter output", true, "cost|ContractCost:funds-exactly",
+		Edit{r4, "renter = fc.RenterOutput.Value.Add(contractCost).Add(minerFee).Add(cs.V2FileContractTax(fc))", "renter = fc.RenterOutput.Value.Add(contractCost).Add(minerFee).Add(fc.RenterOutput.Value.Div64(25))"})
+	mut("C17", "NewContract locks less than it promises on failure", true, "invariant|NewContract",
+		Edit{r4, "\t\t\tMissedHostValue: cp.Collateral,\n\t\t\tTotalCollateral: cp.Collateral,", "\t\t\tMissedHostValue: cp.Collateral.Add(p.ContractPrice),\n\t\t\tTotalCollateral: cp.Collateral,"})
+	mut("C17", "rhp/v3 PayByContract does not lower the missed renter payout", true, "v3-pay|moves-exactly-amount",
+		Edit{"rhp/v3/rhp.go", "\trev.MissedProofOutputs[types.RenterContractIndex].Value = rev.MissedProofOutputs[types.RenterContractIndex].Value.Sub(amount)\n", ""})
+	mut("C17", "rhp/v3 PayByContract only checks the valid payout", true, "v3-pay|guards-dominate-subtractions",
+		Edit{"rhp/v3/rhp.go", "if rev.ValidRenterPayout().Cmp(amount) < 0 || rev.MissedRenterPayout().Cmp(amount) < 0 {", "if rev.ValidRenterPayout().Cmp(amount) < 0 {"})
+	mut("C17", "ReviseForAppendSectors grows capacity by half the appended sectors", true, "capacity|ReviseForAppendSectors#1",
+		Edit{r4, "\tfc.Capacity += SectorSize * growth\n", "\tfc.Capacity += SectorSize * (growth / 2)\n"})
+	mut("C17", "RenewContract keeps the file size but resets capacity to zero", true, "capacity|RenewContract#1",
+		Edit{r4, "renewal.NewContract.Capacity = fc.Filesize", "renewal.NewContract.Capacity = 0"})
+	mut("C17", "form Validate no longer rejects early proof heights", true, "validate-bounds|form:proof-height-min",
+		Edit{"rhp/v4/validation.go", "\tcase req.Contract.ProofHeight < minProofHeight:\n\t\treturn rpcBadRequestError(\"proof height must be greater than %v\", minProofHeight)\n", ""})
+	mut("C17", "renew Validate accepts a proof height equal to the existing one", true, "validate-bounds|renew:after-existing",
+		Edit{"rhp/v4/validation.go", "case req.Renewal.ProofHeight <= existing.ProofHeight:", "case req.Renewal.ProofHeight < existing.ProofHeight:"})
+	mut("C17", "minProofHeight ignores the chain tip", true, "validate-bounds|minProofHeight:later-tip",
+		Edit{"rhp/v4/validation.go", "height := max(tip.Height, hp.TipHeight)", "height := hp.TipHeight"})
+	mut("C17", "(benign) PayWithContract with reordered stores and a local", false, "",
+		Edit{r4, "\tfc.RevisionNumber++\n\tfc.RenterOutput.Value = fc.RenterOutput.Value.Sub(amount)\n\tfc.HostOutput.Value = fc.HostOutput.Value.Add(amount)\n\tfc.MissedHostValue = fc.MissedHostValue.Sub(collateral)\n", "\tnewHost := fc.HostOutput.Value.Add(amount)\n\tfc.MissedHostValue = fc.MissedHostValue.Sub(collateral)\n\tfc.HostOutput.Value = newHost\n\tfc.RenterOutput.Value = fc.RenterOutput.Value.Sub(amount)\n\tfc.RevisionNumber += 1\n"})
+	mut("C17", "(benign) RenewContract host rollover through a min-style helper variable", false, "",
+		Edit{r4, "\tif fc.TotalCollateral.Cmp(renewal.NewContract.TotalCollateral) > 0 {\n\t\trenewal.HostRollover = renewal.NewContract.TotalCollateral\n\t} else {\n\t\trenewal.HostRollover = fc.TotalCollateral\n\t}", "\thostRollover := fc.TotalCollateral\n\tif hostRollover.Cmp(renewal.NewContract.TotalCollateral) > 0 {\n\t\thostRollover = renewal.NewContract.TotalCollateral\n\t}\n\trenewal.HostRollover = hostRollover"})
+}
